@@ -11,8 +11,9 @@ from harness import sorted_monitors as sm
 PID = "C08"
 GEN_GROUPS = ["Sorted", "SortedZ"]
 TARGETS = ["coq/Props/C08.vo", "coq/Model/Sorted.vo"]
-CASES = {"quick": 300, "thorough": 6000}
-UNC = {"quick": 60, "thorough": 1000}
+CASES = {"quick": 220, "thorough": 5000}
+UNC = {"quick": 40, "thorough": 800}
+SEQS = {"quick": 26, "thorough": 400}          # multi-call sequences on ONE algorithm object (about 6 calls each)
 SIMS = {"quick": 10, "thorough": 150}
 SIM_CALLS = {"quick": 80, "thorough": 1500}
 CORR_HEADER = ("From Coq Require Import ZArith QArith List String.\n"
@@ -27,7 +28,7 @@ RULE = ("C07 unit generator restricted to sessions with DISTINCT priority keys f
         "preprocessed sessions) plus, evaluated by the model on the IMPLEMENTATION's pilots, exact maximality for finite-rate "
         "stations (largest feasible level in [lb, ub] with earlier grants fixed, computed by filtering) and the eps-bracket for "
         "continuous ones. Second stream: UncontrolledCharging on random session sets. Third: scheduler calls captured inside "
-        "real simulations. Float-ambiguous decisions (1e-9) are skipped and counted.")
+        "real simulations (the record is what the scheduler returned INSIDE the simulation, the scheduler object living across all periods; a third of the simulations and 2/3 of the stub-driven multi-call sequences are LLF/LRPT families whose priority order flips while the session set is unchanged; scheduler objects are also reused on a second network with the same station ids and other ratings). Float-ambiguous decisions (1e-9) are skipped and counted.")
 ASSUMPTIONS = [
     "theorems are over Q; the implementation computes in IEEE doubles",
     "distinct priority keys are not needed by the theorems (the sort is proved stable), only by the property text; ties are skipped in the correspondence stream",
@@ -54,8 +55,8 @@ def priority_keys(scn):
     return out
 
 
-def mk_case(scn, src="unit"):
-    impl = sc.run_impl(scn)
+def mk_case(scn, src="unit", impl=None):
+    impl = sc.run_impl(scn) if impl is None else impl
     r = sc.Twin(scn).run()
     keys = priority_keys(scn)
     tie = len(set(keys)) != len(keys) or len({s["st"] for s in scn["sessions"]}) != len(scn["sessions"])
@@ -83,21 +84,37 @@ def gen_cases(rng, n, tier):
     return cases
 
 
-def mk_unc(scn):
+def mk_unc(scn, impl=None, kind="uncontrolled"):
     scn = dict(scn, algo="unc", est=None)
-    impl = sc.run_impl(scn)
+    impl = sc.run_impl(scn) if impl is None else impl
     sched = impl["sched"] or []
     coq = "{| u_infra := %s; u_sessions := %s; ou_sched := %s |}" % (
         sc.infra_coq(scn["infra"]), core.coq_list([sc.session_coq(s, scn["now"]) for s in scn["sessions"]]),
         core.coq_list([core.coq_opt(x, core.q) for x in sched]))
-    return dict(input=scn, impl=impl, coq=coq, ambiguous=impl["err"] is not None, kind="uncontrolled",
+    return dict(input=scn, impl=impl, coq=coq, ambiguous=impl["err"] is not None, kind=kind,
                 sig=json.dumps(scn, sort_keys=True, default=str), nontrivial=len(scn["sessions"]) > 0)
 
 
 def extra_streams(rng, tier):
-    unc = [mk_unc(sc.gen_scenario(rng, tier)) for _ in range(UNC[tier])]
-    sims = sm.sim_stream(rng, SIMS[tier], SIM_CALLS[tier], tier, mk_case)
-    return [("unc", CORR_HEADER, "check_uncontrolled", unc), ("sim", CORR_HEADER, CHECK_FN, sims)]
+    # (1) uncontrolled: fresh objects, and ONE object used on two networks that share station ids
+    unc = [mk_unc(sc.gen_scenario(rng, tier)) for _ in range(UNC[tier] // 2)]
+    for _ in range(UNC[tier] // 4):
+        for scn, impl, tag in sc.run_unc_pair(rng, tier):
+            unc.append(mk_unc(scn, impl, tag))
+    # (2) ONE sorted-algorithm object driven through consecutive periods (LLF / LRPT orders that flip mid-run, network
+    #     switches); every call is compared with the model fed that call's true state
+    seq = []
+    for k in range(SEQS[tier]):
+        for scn, impl, tag in sc.run_sequence(rng, tier, algo=("greedy", "greedy", "rr")[k % 3]):
+            seq.append(mk_case(scn, tag, impl=impl))
+    # (3) the same inside real Simulators (what the scheduler returned in the simulation, call by call)
+    sims = sm.sim_stream(rng, SIMS[tier], SIM_CALLS[tier], tier,
+                         lambda snap, src, impl=None: (mk_unc(snap, impl, "sim-unc") if snap["algo"] == "unc"
+                                                       else mk_case(snap, src, impl=impl)), with_unc=True)
+    unc += [c for c in sims if c["input"].get("algo") == "unc"]
+    sims = [c for c in sims if c["input"].get("algo") != "unc"]
+    return [("unc", CORR_HEADER, "check_uncontrolled", unc), ("seq", CORR_HEADER, CHECK_FN, seq),
+            ("sim", CORR_HEADER, CHECK_FN, sims)]
 
 
 def monitor(case):
@@ -120,16 +137,21 @@ def search(rng, budget_s, broken):
             r = sm.monitor_c08(scn, c["impl"]) or sm.monitor_rr_trace(scn, c["impl"])
             if r:
                 return dict(case=scn, impl=c["impl"], why=r)
-        u_ = mk_unc(sc.gen_scenario(rng, "quick"))
-        r = sm.monitor_unc(u_["input"], u_["impl"])
-        if r:
-            return dict(case=u_["input"], impl=u_["impl"], why=r)
+        for scn2, impl2, tag in sc.run_unc_pair(rng, "quick"):
+            r = sm.monitor_unc(scn2, impl2)
+            if r:
+                return dict(case=scn2, impl=impl2, why=r + " (second use of one UncontrolledCharging object: %s)" % tag)
+        for scn2, impl2, tag in sc.run_sequence(rng, "quick"):
+            if sc.Twin(scn2).run()["amb"]:
+                continue
+            r = sm.monitor_c08(scn2, impl2) or sm.monitor_rr_trace(scn2, impl2)
+            if r:
+                return dict(case=scn2, impl=impl2, why=r + " (call %s of one algorithm object)" % tag)
     return None
 
 
 def replay(w):
-    scn = sc.scn_from_json(w["case"])
-    impl = sc.run_impl(scn)
+    scn, impl = sc.replay_with_history(w["case"])
     if scn["algo"] == "unc":
         return sm.monitor_unc(scn, impl)
     return sm.monitor_c08(scn, impl) or sm.monitor_rr_trace(scn, impl)
